@@ -256,7 +256,7 @@ def r4(ctx: Context) -> None:
     ctx.floor("R4", "shared containers enumerated", found, 2)
     # the registry really is keyed by app id
     ms = repo.cls("MemStateBackend")
-    for meth, want in (("store_app_info", "app_info.app_id"), ("get_app_info", "self.app.app_id")):
+    for meth, want in (("store_app_info", "<param1>.app_id"), ("get_app_info", "self.app.app_id")):
         f = ms.methods.get(meth)
         if f is None:
             raise AnalysisError(f"anchor-vanished: MemStateBackend.{meth}")
@@ -271,6 +271,7 @@ def r4(ctx: Context) -> None:
                     keys.add(ast.unparse(v))
             else:
                 keys.add(ast.unparse(k))
+        want = want.replace("<param1>", f.params[1] if len(f.params) > 1 else "?")
         ok = bool(keys) and keys <= {want}
         ctx.add("R4", f"app-info-registry::{meth}::keyed-by-app-id", ok, f.loc(), "" if ok else f"registry accessed with {sorted(keys)}")
     # every MUTATION of a class-level registry of a component touches one app's entry only
